@@ -15,8 +15,11 @@ ASSUME = ['the list model is Python list itself', 'atomicity of a refused *multi
           '(either nothing or the accepted prefix)', 'grid[i] = non-dict with i out of range may raise TypeError or IndexError']
 
 
-def alphabet(rows=(0, 1), nondict=5, idx=(-1, 0, 1, 5), v3row=None):
+def alphabet(rows=(0, 1), nondict=5, idx=(-1, 0, 1, 5), v3row=None, twin=12):
     ops = []
+    if twin is not None and rows[1] == 1:
+        # a row equal to rows[1] that is another object: a list finds / removes the *first equal* row
+        ops += [['append', twin], ['insert', 0, twin], ['set', 0, twin], ['remove', twin]]
     for r in list(rows) + [nondict]:
         ops.append(['append', r])
     for i in idx:
